@@ -135,10 +135,13 @@ Print Assumptions C17_examples.
    [sim_trace]: the attribute-level events of one item as a multiset, Code / record components /
    fields / methods by index and header with equivalent contents, a table visited after the loop by
    the rows it holds.  [v_full T]: every interest, nothing declined.
-   [build true] ("strict") additionally refuses the three situations in which a tree cannot tell
-   what the reader said: an annotations attribute with no annotations, a LocalVariableTable /
-   LocalVariableTypeTable without rows, an at-most-once attribute that the builder merges or
-   overwrites occurring twice.  [replay_inexact] = "the strict builder refuses". *)
+   [build true] ("strict") additionally refuses the two situations in which a tree cannot tell
+   what the reader said: an annotations attribute with no annotations, an at-most-once attribute
+   that the builder merges or overwrites occurring twice.  [replay_inexact] = "the strict builder
+   refuses".  (A LocalVariableTable / LocalVariableTypeTable without rows was a third until the
+   reader and Code::accept were given one rule for it — an empty table is handed only to a visitor
+   interested in both tables; both guards are read off the source, [t_whole] / [SLocals … whole],
+   and the finite check compares them.) *)
 From FB Require Import C17.Replay C17.AcceptTable C17.Theory8 C17.Theory9 C17.Theory11 C17.Theory13 C17.Theory14.
 
 (* The tables that the translator reads off class_reader.rs, visitor/implementations/tree.rs and
@@ -212,18 +215,13 @@ Theorem C17_replay_decidable : forall c, wf_b tables c = true ->
 Proof. exact replay_decidable. Qed.
 Print Assumptions C17_replay_decidable.
 
-(* the known class is not empty, and the restriction is needed: three witnesses (class structure,
+(* the known class is not empty, and the restriction is needed: two witnesses (class structure,
    visitor) on which the class is well-formed, the tree builder succeeds, the strict builder
    refuses, and replay and read differ.  F20a: `class A` with an empty RuntimeVisibleAnnotations,
-   full visitor.  F20b: a Code with a LocalVariableTable without rows, visitor interested in
-   local_variable_type_table only.  Precondition: RuntimeVisibleAnnotations twice on one class. *)
+   full visitor.  Precondition: RuntimeVisibleAnnotations twice on one class. *)
 Theorem C17_replay_empty_annotations_refuted : refutes w_empty_annotations (v_full tables).
 Proof. exact replay_empty_annotations_refuted. Qed.
 Print Assumptions C17_replay_empty_annotations_refuted.
-
-Theorem C17_replay_rowless_locals_refuted : refutes w_rowless_locals v_only_lvtt.
-Proof. exact replay_rowless_locals_refuted. Qed.
-Print Assumptions C17_replay_rowless_locals_refuted.
 
 Theorem C17_replay_duplicate_refuted : refutes w_duplicate (v_full tables).
 Proof. exact replay_duplicate_refuted. Qed.
@@ -319,6 +317,16 @@ Theorem C17_interleaved_tables : interleaved_statement.
 Proof. exact interleaved_holds. Qed.
 Print Assumptions C17_interleaved_tables.
 
+(* tables WITHOUT rows (the former finding F20b; corpus/C17/replay/RowlessLocalVariableTable.class is [enc w_rowless_locals]):
+   a Code whose only table is a LocalVariableTable without rows, and a Code with a LocalVariableTable of one row next to a
+   LocalVariableTypeTable without rows, are well-formed and OUTSIDE the known class; reading the bytes and replaying the tree
+   hand the same to the full visitor (the table, without rows / with the one row), to a visitor interested in
+   local_variable_table only and to one interested in local_variable_type_table only (local variables exactly when there is a
+   row for it) *)
+Theorem C17_rowless_tables : rowless_statement.
+Proof. exact rowless_holds. Qed.
+Print Assumptions C17_rowless_tables.
+
 (* ======================= the tree builder succeeds (build_succeeds) =======================
 
    Vocabulary (coq/C17/Theory16.v).  [once_b T AT c]: no item of c (the class, a field, a method, a Code, a record
@@ -380,10 +388,11 @@ Print Assumptions C17_replay_total.
    duke's `read_element_value_unnamed` / `read_element_values_named` / `read_annotations_attribute`, driven by the table X
    (tags, pool accessor of every constant tag, MAX_ELEMENT_VALUE_NESTING) that translate/c17_values.py reads off
    class_reader.rs at every check ([xtable_gen]); [xtable_ok X]: the five kinds of arms are told apart by their tags.
-   [attr_value X V rs name raw body]: the value a visitor is handed for the attribute [name] with body [body] — the parsed tree
-   with every index resolved by [rs] (strings, numeric constants narrowed as the accessor narrows them), flattened; defined for
-   the annotations attributes, AnnotationDefault, the attributes whose body is one index of a string, and the attributes that are
-   rows of pool indices and flags, with the layout read off their reader arm ([vnames_gen]).
+   [attr_value X V rs loc name raw body]: the value a visitor at location [loc] (0 class, 1 field, 2 method, 3 Code, 4 record
+   component; [loc_of pl]) is handed for the attribute [name] with body [body] — the parsed tree with every index resolved by
+   [rs] (strings, numeric constants narrowed as the accessor narrows them), flattened; defined for the annotations attributes,
+   AnnotationDefault, the attributes whose body is one index of a string, the attributes that are rows of pool indices and
+   flags, with the layout read off their reader arm, and the TYPE annotations attributes ([vnames_gen]).
    [attr_at t pl e]: in trace t the visitor at place pl (class, k-th field, k-th method, Code of the k-th method, k-th record
    component) receives the attribute event e (name, raw?, body);  [value_at … t pl name val]: … and its parsed value is val.
    [wanted T v pl name]: v accepts the class and the item at pl, and the interest flags that govern [name] there (and the Code /
@@ -415,9 +424,10 @@ Proof. exact p_value_too_deep. Qed.
 Print Assumptions C17_element_value_too_deep.
 
 (* what the visitor is handed for an annotations attribute is the resolved, flattened list of the annotations it encodes *)
-Theorem C17_attr_value_annotations : forall X V rs name l, xtable_ok X = true ->
+Theorem C17_attr_value_annotations : forall X V rs loc name l, xtable_ok X = true ->
+  existsb (str_eqb name) (vn_type_annotations V) = false ->
   existsb (str_eqb name) (vn_annotations V) = true -> forallb (annotation_ok X) l = true ->
-  attr_value X V rs name false (enc_annotations X l) = Some (canon_annotations X rs l).
+  attr_value X V rs loc name false (enc_annotations X l) = Some (canon_annotations X rs l).
 Proof. exact attr_value_annotations. Qed.
 Print Assumptions C17_attr_value_annotations.
 
@@ -488,10 +498,67 @@ Theorem C17_layout_parse : forall lay rows rest, rows_ok lay rows = true ->
 Proof. exact p_layout_enc. Qed.
 Print Assumptions C17_layout_parse.
 
-Theorem C17_attr_value_layout : forall X V rs name lay rows,
+Theorem C17_attr_value_layout : forall X V rs loc name lay rows,
+  existsb (str_eqb name) (vn_type_annotations V) = false ->
   existsb (str_eqb name) (vn_annotations V) = false -> str_eqb name (vn_element V) = false ->
   existsb (str_eqb name) (vn_index V) = false -> assoc_layout name (vn_layouts V) = Some lay ->
   rows_ok lay rows = true ->
-  attr_value X V rs name false (enc_layout lay rows) = Some (canon_layout rs lay rows).
+  attr_value X V rs loc name false (enc_layout lay rows) = Some (canon_layout rs lay rows).
 Proof. exact attr_value_layout. Qed.
 Print Assumptions C17_attr_value_layout.
+
+(* ======================= parsed VALUES of type annotations (JVMS 4.7.20) =======================
+
+   Vocabulary (coq/C17/Values.v).  [tannot]: one type annotation — target_type, the values of its target_info (one per field the
+   reader's arm reads: a u8, a u16, a bytecode offset that becomes a label, or the table of a local-variable target: rows of
+   start_pc, length, index), the type_path (kind, index), the annotation's type index and element-value pairs.  [ttable]:
+   target_type -> the fields its arm reads; [tytable] = per location (0 class, 1 field, 2 method, 3 Code, 4 record component) the
+   ttable of the `impl TargetInfoRead` that the location's visitor trait demands (inside Code: `read_type_reference_code`), and which
+   type_path kinds carry an index — all read off class_reader.rs, class_constants.rs and the visitor traits at every check
+   ([targets_gen], [path_kinds_gen]).  [p_type_annotations X Y loc]: the model of `read_type_annotations_attribute(_code)` at that
+   location; [enc_type_annotations]: the JVMS encoding; [tannot_ok]: the target type has an arm there, the values fit its fields,
+   path kinds exist and carry an index only where the reader admits one, element values as for annotations.
+   [canon_type_annotations]: what the visitor is handed — target type and target info as numbers (a label as the offset it stands
+   for, a range as start_pc and length), the path, the annotation resolved.  Because [value_at] is defined through [attr_value] at
+   [loc_of pl], C17_read_values_projection / C17_replay_values(_known) / C17_values_total above now also speak of these values. *)
+
+(* the parser inverts the encoding and consumes exactly it: for every table of target types and every location it has arms for *)
+Theorem C17_type_annotations_parse : forall X Y loc tbl, xtable_ok X = true -> assocN loc (ty_targets Y) = Some tbl ->
+  forall l rest, forallb (tannot_ok X (ty_path Y) tbl) l = true ->
+    p_type_annotations X Y loc (enc_type_annotations X tbl l ++ rest) = Ok (l, rest).
+Proof. exact p_type_annotations_enc. Qed.
+Print Assumptions C17_type_annotations_parse.
+
+(* a target type that the location has no arm for is refused, whatever follows (e.g. FIELD inside a method_info: C01's F13t) *)
+Theorem C17_type_annotations_foreign_target : forall X Y loc tbl t n rest,
+  assocN loc (ty_targets Y) = Some tbl -> assocN t tbl = None ->
+  p_type_annotations X Y loc (e16 (N.succ n) ++ t :: rest) = Err.
+Proof. exact p_type_annotations_foreign_target. Qed.
+Print Assumptions C17_type_annotations_foreign_target.
+
+(* an index on a type_path kind that carries none (array, nested, wildcard) is refused *)
+Theorem C17_type_path_index_refused : forall K k i rest, assocN k K = Some false -> i <> 0 ->
+  p_type_path K (1 :: k :: i :: rest) = Err.
+Proof. exact p_type_path_index_refused. Qed.
+Print Assumptions C17_type_path_index_refused.
+
+(* what the visitor is handed for a type annotations attribute is the resolved, flattened list of the type annotations it encodes *)
+Theorem C17_attr_value_type_annotations : forall X V rs loc name tbl l, xtable_ok X = true ->
+  existsb (str_eqb name) (vn_type_annotations V) = true -> assocN loc (ty_targets (vn_types V)) = Some tbl ->
+  forallb (tannot_ok X (ty_path (vn_types V)) tbl) l = true ->
+  attr_value X V rs loc name false (enc_type_annotations X tbl l) = Some (canon_type_annotations X rs l).
+Proof. exact attr_value_type_annotations. Qed.
+Print Assumptions C17_attr_value_type_annotations.
+
+(* non-vacuity with the tables of the code as it is: a method-level and two Code-level type annotations satisfy [tannot_ok], their
+   encodings are the stated bytes and parse back; FIELD (0x13) is refused at a method and accepted at a field *)
+Theorem C17_type_values_examples : type_values_nonvacuous.
+Proof. exact type_values_nonvacuous_holds. Qed.
+Print Assumptions C17_type_values_examples.
+
+(* … and through the whole chain: a class with a class-level and a Code-level RuntimeVisibleTypeAnnotations is well-formed, outside
+   the known class, and the full visitor is handed [1; 0x10; 65535; path 0; type; 0 pairs] at the class and [1; 0x44; offset 0; …]
+   at the Code of method 0 *)
+Theorem C17_type_values_example : type_values_example.
+Proof. exact type_values_example_holds. Qed.
+Print Assumptions C17_type_values_example.
